@@ -163,6 +163,18 @@ def c11_program(draw):
             cut = draw(st.sampled_from(parent["cuts"]))
             body.insert(cut, {"k": "include", "path": inst["path"]})
             parent["cuts"] = [c if c < cut else c + 1 for c in parent["cuts"]] + [cut]
+    # the same file included a second time (only files that export nothing: a second export would be a duplicate): every
+    # inclusion is an instance of its own, its references bind to its own labels
+    twice = 0
+    for inst in insts:
+        if inst["parent"] and inst["defs"] and not inst["extern_all"] and all(d["how"] == "private" for d in inst["defs"].values()) \
+                and not any(c["parent"] == inst["path"] for c in insts) and draw(st.integers(0, 2)) == 0:
+            parent = [x for x in insts if x["path"] == inst["parent"]][0]
+            body = files[inst["parent"]]
+            cut = draw(st.sampled_from(parent["cuts"]))
+            body.insert(cut, {"k": "include", "path": inst["path"]})
+            parent["cuts"] = [c if c < cut else c + 1 for c in parent["cuts"]] + [cut]
+            twice += 1
     mains = [x["path"] for x in insts if x["parent"] is None]
     if fault == "invisible":
         # a reference to a name that is private to another instance (or defined nowhere)
@@ -207,7 +219,7 @@ def c11_program(draw):
             fault = None
     if draw(st.booleans()):
         files[mains[0]].insert(0, {"k": "link", "e": ("num", draw(st.sampled_from([0o2000, 0o40000])))})
-    return {"files": files, "blobs": {}, "mains": mains, "charset": "bk", "meta": {"fault": fault, "shadow": any(x.get("forced_use") for x in insts)}}
+    return {"files": files, "blobs": {}, "mains": mains, "charset": "bk", "meta": {"fault": fault, "shadow": any(x.get("forced_use") for x in insts), "twice": twice}}
 
 
 @st.composite
@@ -299,6 +311,8 @@ def run_shard(spec, ctx):
                   "has-include" if len(prog["files"]) > len(prog["mains"]) else "no-include", "reused-names" if reuse else "no-reuse"]
         if any(s["k"] == "extern" and s["names"] == "all" for st_ in prog["files"].values() for s in st_):
             labels.append("extern-all")
+        if prog["meta"].get("twice"):
+            labels.append("file-included-twice")
         if prog["meta"].get("shadow"):
             labels.append("shadowed-private-behind-export")
         ctx.case(key, reuse >= 1, labels, sample=progcheck.brief_texts(texts, 600) if ctx.evaluations % 70 == 9 else None)
